@@ -2,7 +2,7 @@
    "per-session invariant over all histories" theorem for the server step. *)
 From Coq Require Import String List NArith ZArith Bool Lia.
 From GoUpf Require Import Bytes FlagsGen ConstsGen HandlerGen Pfcp PfcpBase PfcpSess PfcpClose PfcpTable PfcpDelete
-  PfcpStep PfcpProps PfcpCat PfcpUsage.
+  PfcpStep PfcpProps PfcpFrame PfcpCat PfcpUsage.
 Import ListNotations.
 Local Open Scope N_scope.
 
@@ -495,3 +495,69 @@ Qed.
 Theorem reachable_queue_bound w lid s pdr q :
   reachable w -> live w lid s -> alookup pdr (s_q s) = Some q -> N.of_nat (length q) <= BUFFQ_LEN.
 Proof. intros Hr HL. exact (reachable_QOK w Hr lid s HL pdr q). Qed.
+
+(* ---------------------------------------------------------------- the carriers: what is stored is what was counted *)
+
+(* Session Modification (no Node ID): the response carries snd (emit 0 true ..) over the reports of the request's
+   operations, and the session stored afterwards carries fst of the SAME emission - so the next message continues
+   the UR-SEQN of every URR where this one stopped (emit_counter_after).  Destination = the requester. *)
+Theorem handle_mod_emits w peer seq seid o e s c rs :
+  WInv w -> live w seid s ->
+  run_categories e o mod_order (mkCtx s (w_dp w) []) = Some (c, rs) ->
+  exists w' o3,
+    handle_mod w peer seq seid IeAbsent o e = Ok (w', c_out c ++ o3) /\
+    live w' seid (set_urrs (fst (emit 0 true (s_urrs (c_s c)) rs)) (c_s c)) /\
+    (o3 = [] \/ o3 = [OSend peer (PModRsp seq (s_rid s) CauseAccepted (snd (emit 0 true (s_urrs (c_s c)) rs))) false]).
+Proof.
+  intros HI HL Ec. unfold handle_mod. pose proof HL as HL0. apply lookup_found in HL0. rewrite HL0, Ec.
+  pose proof (run_categories_good _ _ _ _ _ Ec) as [[Fl _ _ _ _] _]. cbn [fst c_s] in Fl.
+  destruct (emit 0 true (s_urrs (c_s c)) rs) as [urrs ies]. cbn [fst snd].
+  assert (Hlid : s_lid s = seid) by (eapply live_lid; eauto).
+  rewrite (put_slot_upd w seid s (set_urrs urrs (c_s c)) (c_dp c) HL) by (cbn; congruence).
+  match goal with |- context [send_rsp ?wx peer seq ?px] =>
+    pose proof (send_rsp_core wx peer seq px) as C; pose proof (PfcpFrame.send_rsp_out wx peer seq px) as Ho;
+    destruct (send_rsp wx peer seq px) as [w3 o3] end.
+  cbn [fst snd] in *. exists w3, o3. split; [reflexivity|]. split; [|exact Ho].
+  apply (live_core _ _ _ _ C). apply (live_upd_same w seid s _ _ HL).
+Qed.
+
+(* Session Deletion: the response carries the emission, with TERMR, over the reports of Sess.Close *)
+Theorem handle_del_emits w peer seq seid e s w1 o1 s1 rs :
+  live w seid s -> delete_sess e w (s_node s) seid = Ok (w1, Some (o1, s1, rs)) ->
+  exists w' o3,
+    handle_del w peer seq seid e = Ok (w', o1 ++ o3) /\
+    (o3 = [] \/ o3 = [OSend peer (PDelRsp seq (s_rid s) CauseAccepted (snd (emit USAR_TRIG_TERMR true (s_urrs s1) rs))) false]).
+Proof.
+  intros HL Ed. unfold handle_del. apply lookup_found in HL. rewrite HL, Ed.
+  destruct (emit USAR_TRIG_TERMR true (s_urrs s1) rs) as [u ies]. cbn [snd].
+  match goal with |- context [send_rsp ?wx peer seq ?px] =>
+    pose proof (PfcpFrame.send_rsp_out wx peer seq px) as Ho; destruct (send_rsp wx peer seq px) as [w3 o3] end.
+  cbn [snd] in Ho. exists w3, o3. split; [reflexivity | exact Ho].
+Qed.
+
+(* ---------------------------------------------------------------- finding: Create URR for an id the session already has *)
+
+(* URR 7 reports with UR-SEQN 0; a second Create URR 7 is rejected by the driver (the rule exists), but the
+   bookkeeping was already replaced (SEQN 0); the next report of the SAME, still running, URR carries UR-SEQN 0 again *)
+Definition recreate_urr_history : list event :=
+  [EvRecv 0 1 (MAssocSetup (IeVal 0) []) (mkEnv [] []);
+   EvRecv 0 2 (MEst (IeVal 0) (IeVal 10)
+     (mkOps [] [] [mkUrrOp (Some 7) (Some 2) None] [] [mkPdrOp (Some 1) [7] true false] [] [] [] [] [] [] [] [] [] [] []))
+     (mkEnv [] []);
+   EvReport 1 [RUsa (mkRpt 7 1 0 [30; 30; 30; 1; 1; 1] 5 100 200)] (mkEnv [] []);
+   EvRecv 0 3 (MMod 1 IeAbsent (mkOps [] [] [mkUrrOp (Some 7) (Some 2) None] [] [] [] [] [] [] [] [] [] [] [] [] []))
+     (mkEnv [] []);
+   EvReport 1 [RUsa (mkRpt 7 1 0 [40; 40; 40; 1; 1; 1] 5 200 300)] (mkEnv [] [])].
+
+Definition usar_seqns (o : list out) : list (N * N) :=
+  flat_map (fun x => match x with OSend _ (PReportUSAR _ _ ies) _ => map (fun ie => (ur_urr ie, ur_seqn ie)) ies | _ => [] end) o.
+
+Example create_urr_existing_id_refuted :
+  match run (init 0 1) recreate_urr_history with
+  | Ok (_, os) =>
+      usar_seqns (nth 2 os []) = [(7, 0)] /\
+      nth 3 os [] = [ODrv DCreate KURR 1 7 false; OSend 0 (PModRsp 3 10 CauseAccepted []) false] /\
+      usar_seqns (nth 4 os []) = [(7, 0)]
+  | Fault _ => False
+  end.
+Proof. vm_compute. repeat split; reflexivity. Qed.
